@@ -13,7 +13,9 @@ EXACT_TRANSLATION_KINDS = [("bin", 2), ("dbin", 2), ("kary", 2), ("kary", 4)]
 
 
 def image(box, scale, shift):
-    return [[shift + scale * lo, shift + scale * hi] for lo, hi in box]
+    """uniform positive scaling followed by a translation (a number, or one component per coordinate)"""
+    sh = shift if isinstance(shift, (list, tuple)) else [shift] * len(box)
+    return [[sh[x] + scale * lo, sh[x] + scale * hi] for x, (lo, hi) in enumerate(box)]
 
 
 def models(chk, tier):
@@ -65,11 +67,17 @@ def run(tier):
                 mode, tol = "exact", 0
             elif what == "translate-dyadic":
                 scale, shift = 1.0, rnd.choice([1.0, -8.0, 64.0, 0.5, 4096.0, -65536.0, 1048576.0])
+                if D >= 2 and rep % 2 == 1:     # a translation is a vector: unequal components
+                    shift = [rnd.choice([0.0, 1.0, -8.0, 64.0, 0.5, 4096.0, -65536.0]) for _ in range(D)]
+                    if len(set(shift)) == 1:
+                        shift[0] += 16.0
                 mode, tol = "exact", 0
                 if kind in ("rbin", "rkary"):
                     mode, tol = "approx", 3
             else:
                 scale, shift = rnd.choice([3.0, 0.1, 7.3]), rnd.choice([0.1, -3.7, 100.3])
+                if D >= 2 and rep % 2 == 0:
+                    shift = [rnd.choice([0.1, -3.7, 100.3, 0.0, 12.5]) for _ in range(D)]
                 mode, tol = "approx", 3
             n = 100
             k += 2
@@ -88,6 +96,25 @@ def run(tier):
                 continue          # linspace thirds are not translation-exact
             jobs += [dict(base, id=6000000 + k, box=box), dict(base, id=6000001 + k, box=image(box, scale, shift))]
             plan.append((6000000 + k, 6000001 + k, "exact", 0, {"what": "scale2k" if shift == 0.0 else "translate-dyadic", "scale": scale, "shift": shift}))
+    # translations by a vector with unequal components (D >= 2): a test that mixes up the coordinates survives uniform shifts
+    for (kind, Kk, D) in (("bin", 2, 2), ("dbin", 2, 2), ("kary", 2, 2), ("kary", 4, 2), ("bin", 2, 3)):
+        for algo in ("Zooming", "T_HOO", "DOO", "SOO", "SequOOL", "HCT"):
+            shift = [[0.0, 8.0, -4.0], [-4.0, 2.0, 64.0], [16.0, -0.5, 0.0]][(k // 2) % 3][:D]
+            for prm in (({"nu": 4, "rho": 0.5}, {"nu": 32, "rho": 0.7}) if algo == "Zooming" else ({},)):   # fast-refining: many hand-overs of the arm
+                k += 2
+                base = {"algo": algo, "kind": kind, "K": Kk, "D": D, "n": 150, "T": 150, "prm": prm, "pattern": rnd.choice(PC2.SAFE_PATTERNS), "seed": rnd.randrange(1 << 30)}
+                box = DYADIC_BOXES[D][0]
+                jobs += [dict(base, id=6000000 + k, box=box), dict(base, id=6000001 + k, box=image(box, 1.0, shift))]
+                plan.append((6000000 + k, 6000001 + k, "exact", 0, {"what": "translate-dyadic", "scale": 1.0, "shift": shift}))
+    # DOO's default diameter function reads the cells' coordinates: translations across the origin (cells whose
+    # centres change sign) and far away from it
+    for (kind, Kk, D) in (("bin", 2, 1), ("kary", 2, 1), ("kary", 4, 1), ("dbin", 2, 2), ("bin", 2, 2)):
+        for (box1, shift) in (([0.0, 1.0], -4.0), ([0.0, 1.0], -0.5), ([-2.0, 6.0], 8.0), ([0.5, 0.75], -65536.0), ([0.0, 1.0], 4096.0)):
+            k += 2
+            base = {"algo": "DOO", "kind": kind, "K": Kk, "D": D, "n": 100, "T": 100, "prm": {}, "pattern": rnd.choice(PC2.SAFE_PATTERNS), "seed": rnd.randrange(1 << 30)}
+            box = [list(box1)] + [[0.0, 1.0]] * (D - 1)
+            jobs += [dict(base, id=6000000 + k, box=box), dict(base, id=6000001 + k, box=image(box, 1.0, shift))]
+            plan.append((6000000 + k, 6000001 + k, "exact", 0, {"what": "translate-dyadic", "scale": 1.0, "shift": shift}))
     # midpoint partitions cut exactly through the arm (cut and centre are the same float in every image), so
     # Zooming's containment decisions survive inexact maps there: compared on structure and positions
     for (kind, Kk, D) in (("bin", 2, 1), ("bin", 2, 2), ("dbin", 2, 2), ("bin", 2, 3)):
